@@ -140,6 +140,8 @@ func genFile(w *simrt.Stream, format string, max int) []absItem {
 			v := genHdrVals[w.Draw(len(genHdrVals))]
 			if k == "Host" {
 				v = genHosts[1+w.Draw(len(genHosts)-1)]
+			} else if w.Draw(8) == 0 {
+				v = "" // `[Name:]` - the file defines the header, with an empty value (a way to suppress a default)
 			}
 			items = append(items, absItem{HK: k, HV: v})
 		}
